@@ -951,7 +951,7 @@ impl Property for C12 {
     }
     fn runs(&self, tier: Tier) -> usize {
         match tier {
-            Tier::Quick => 12_000,
+            Tier::Quick => 30_000,
             Tier::Thorough => 2_000_000,
         }
     }
